@@ -13,10 +13,12 @@
      par sel A B               two elements side by side (a packet goes to A iff sel p); fanin sel A B C = par sel A B >> C
      hands k tr                the packets shown as handed from stage k to stage k+1, in order;  tagged E: E numbers them consistently *)
 From Coq Require Import ZArith QArith List Bool Permutation Arith.
-From ONL Require Import Elem.Packet Elem.StoreQ Elem.Network
+From ONL Require Import Elem.Packet Elem.StoreQ
+  Elem.HeapList Elem.WFQServer Elem.WFQServerProofs Elem.WFQServerTrace Elem.WFQ Elem.WFQProofs Elem.VC Elem.VCProofs Elem.WFQInst
+  Elem.DRR Elem.DRRInv Elem.DRRProofs
   Elem.Wire Elem.Port Elem.Bucket Elem.BucketProofs Elem.SchedBase Elem.SchedBaseProofs Elem.SP
-  Elem.Iface Elem.Compose Elem.ComposePar Elem.ComposeHands Elem.AdaptWire Elem.AdaptPort Elem.AdaptBucket Elem.AdaptSched
-  Elem.AdaptTagged Elem.ComposeExample.
+  Elem.Network Elem.Iface Elem.Compose Elem.ComposePar Elem.ComposeHands Elem.AdaptWire Elem.AdaptPort Elem.AdaptBucket Elem.AdaptSched
+  Elem.AdaptSrv Elem.AdaptDRR Elem.AdaptTagged Elem.ComposeExample.
 Import ListNotations.
 
 (* ================= the composite is made of its parts ================= *)
@@ -193,6 +195,27 @@ Theorem C08_pipe_mq_adapter_exact : forall c s s',
 Proof. exact (fun c s s' => conj (fun acts tr => mq_run_elem c acts s s' tr) (fun acts tr => mq_elem_run c acts s s' tr)). Qed.
 Print Assumptions C08_pipe_mq_adapter_exact.
 
+(* WFQ and VirtualClock (one automaton with a stamping discipline S): the adapter's put refuses unconfigured packets, so its
+   executions are exactly the model's executions over configured packets (put_ok: every FPut carries a configured packet) *)
+Theorem C08_pipe_srv_adapter_exact : forall (S : stamper) (rate : Q) (st0 : ST S) (confb : pkt -> bool) s s',
+  (forall acts tr, Forall (put_ok confb) acts -> WFQServer.run S rate s acts = Some (s', tr) ->
+     Iface.run (srv_elem S rate st0 confb) s (map f_of acts) = Some (s', map (f_ev S) tr)) /\
+  (forall acts tr, Iface.run (srv_elem S rate st0 confb) s acts = Some (s', tr) ->
+     exists tr0, WFQServer.run S rate s (map f_to acts) = Some (s', tr0) /\ tr = map (f_ev S) tr0 /\
+                 map f_of (map f_to acts) = acts /\ Forall (put_ok confb) (map f_to acts)).
+Proof.
+  exact (fun S rate st0 confb s s' => conj (fun acts tr => srv_run_elem S rate st0 confb acts s s' tr)
+                                           (fun acts tr => srv_elem_run S rate st0 confb acts s s' tr)).
+Qed.
+Print Assumptions C08_pipe_srv_adapter_exact.
+
+Theorem C08_pipe_drr_adapter_exact : forall c t0 s s',
+  (forall acts tr, drr_run c s acts = Some (s', tr) -> Iface.run (drr_elem c t0) s (map d_of acts) = Some (s', map d_ev tr)) /\
+  (forall acts tr, Iface.run (drr_elem c t0) s acts = Some (s', tr) ->
+     exists tr0, drr_run c s (map d_to acts) = Some (s', tr0) /\ tr = map d_ev tr0 /\ map d_of (map d_to acts) = acts).
+Proof. exact (fun c t0 s s' => conj (fun acts tr => drr_run_elem c t0 acts s s' tr) (fun acts tr => drr_elem_run c t0 acts s s' tr)). Qed.
+Print Assumptions C08_pipe_drr_adapter_exact.
+
 (* the per-element C08 theorems in interface form *)
 Theorem C08_pipe_wire_laws : forall loss t0, laws (wire_elem loss t0) /\ timed (wire_elem loss t0).
 Proof. exact (fun loss t0 => conj (wire_elem_laws loss t0) (wire_elem_timed loss t0)). Qed.
@@ -222,6 +245,20 @@ Theorem C08_pipe_rr_wrr_laws :
   (forall r ws, 0 < r -> (forall f w, In (f, w) ws -> (0 < w)%Z) -> laws (wrr_elem r ws)).
 Proof. exact (conj rr_elem_laws wrr_elem_laws). Qed.
 Print Assumptions C08_pipe_rr_wrr_laws.
+
+Theorem C08_pipe_wfq_vc_laws :
+  (forall cfg, wcfg_ok cfg -> laws (wfq_elem cfg) /\ timed (wfq_elem cfg) /\ tagged (wfq_elem cfg)) /\
+  (forall cfg, vcfg_ok cfg -> laws (vc_elem cfg) /\ timed (vc_elem cfg) /\ tagged (vc_elem cfg)).
+Proof.
+  exact (conj (fun cfg Ok => conj (wfq_elem_laws cfg Ok) (conj (srv_elem_timed _ _ _ _) (wfq_elem_tagged cfg)))
+              (fun cfg Ok => conj (vc_elem_laws cfg Ok) (conj (srv_elem_timed _ _ _ _) (vc_elem_tagged cfg)))).
+Qed.
+Print Assumptions C08_pipe_wfq_vc_laws.
+
+Theorem C08_pipe_drr_laws : forall cfg t0, dwf cfg ->
+  laws (drr_elem cfg t0) /\ timed (drr_elem cfg t0) /\ tagged (drr_elem cfg t0).
+Proof. exact (fun cfg t0 W => conj (drr_elem_laws cfg t0 W) (conj (drr_elem_timed cfg t0) (drr_elem_tagged cfg t0))). Qed.
+Print Assumptions C08_pipe_drr_laws.
 
 (* ================= a concrete family: Port >> Wire >> TokenBucket, every configuration ================= *)
 (* every admissible execution of the three-stage pipeline: injected = delivered ++ dropped (port refusals, wire losses) ++
